@@ -93,7 +93,13 @@ class TapeRecorder(object):
                 else:
                     duration = time() - start_time
 
-                    self._add_post_operation_metadata(recording, metadata, post_operation_metadata_extractor, duration)
+                    try:
+                        self._add_post_operation_metadata(recording, metadata, post_operation_metadata_extractor,
+                                                          duration)
+                    except BaseException:
+                        # Metadata extraction was interrupted (e.g. KeyboardInterrupt), don't leave the recording open
+                        self.tape_cassette.abort_recording(recording)
+                        raise
 
                     try:
                         self.tape_cassette.save_recording(recording)
